@@ -214,7 +214,7 @@ PROPS["C20"] = {'assumptions': ['crypto/rand draws do not repeat and cannot be g
  'level_note': 'Real scheduling is sampled, the theorems are over the event model (schedules = arbitrary event lists). A connection that presented the right '
                'id but lost (failure reply taken first, or another broker won) may stay open unreturned: observed and counted, not a clause of C20. '
                "Unguessability of the id is crypto/rand's; the model proves one own draw per attempt.",
- 'level_text': 'returns_only_matching, rogues_closed_never_returned (every arrival order and interleaving: the returned connection presented exactly the  proxied_ignores_reply_claim + broker_cannot_choose_id (in proxied mode the id expected in the hello is the requester's own, whatever the broker's reply names).'
+ 'level_text': 'returns_only_matching, rogues_closed_never_returned (every arrival order and interleaving: the returned connection presented exactly the  proxied_ignores_reply_claim + broker_cannot_choose_id (in proxied mode the id expected in the hello is the own id of the requester, whatever the reply of the broker names).'
                'generated id under CCB_REVERSE_CONNECT, everything else is closed and not returned), broker_failure_ends / broker_failure_genuine / '
                'attempt_result_final, proxied_returns_iff / proxied_failure_ends, dial_returns_only_matching (any number of brokers, any subset working, any '
                'completion order), at_most_one, id_fresh, connect_id_source (GenerateConnectID draws from crypto/rand and reads no package-level state: regenerated table), connect_id_origins (every ClaimId ccb/ puts on the wire or matches a hello against is traced to a GenerateConnectID call or to the ad received from the peer; math/rand only for the declared non-cryptographic uses), other_requests_id_never_returned: kernel-checked over the event model. Tied to the code by the ccb '
